@@ -378,7 +378,7 @@ def validate_sshsig(data: BytesOrFilePath, sig: BytesOrFilePath,
             cert = decode_ssh_certificate(pubdata)
 
             if cert.is_x509: # pragma: no cover
-                raise ValueError('X.509 certificates not supported')
+                return False
 
             cert = cast(SSHOpenSSHCertificate, cert)
             key = cert.key
@@ -401,7 +401,10 @@ def validate_sshsig(data: BytesOrFilePath, sig: BytesOrFilePath,
     except PacketDecodeError:
         return False
 
-    data_to_verify = _signed_data(data, is_hashed, hash_name, namespace)
+    try:
+        data_to_verify = _signed_data(data, is_hashed, hash_name, namespace)
+    except ValueError:
+        return False
 
     if not key.verify(data_to_verify, sig):
         return False
